@@ -336,9 +336,67 @@ def check_ne_coupled(spec, res, stats, npts, prop='C14'):
             return
 
 
+GROUP_LINES = [('{a} >= 1.0', '{b} = {a} + 2.0'), ('{a} <= -3.0', '{b} = 2.0*{a}'), ('{a} = 4.0',), ('{a} <= {b} - 1.0', '{b} <= 6.0'),
+               ('{a} >= 0.5',), ('{b} = 1.5', '{a} >= {b}')]
+
+
+def gen_grouped(seed):
+    """the documented tuple-of-strings form: each string is one group of lines over its own two variables"""
+    rng = random.Random('grouped|%d' % seed)
+    out = []
+    for ngroups in (2, 3, 2, 3):
+        nv = 2 * ngroups + rng.choice([0, 1])
+        texts = []
+        for g in range(ngroups):
+            t = rng.choice(GROUP_LINES)
+            texts.append('\n'.join(l.format(a='x%d' % (2 * g), b='x%d' % (2 * g + 1)) for l in t))
+        out.append({'family': 'grouped', 'texts': texts, 'nv': nv, 'seed': seed, 'ctype': rng.choice([None, 'inner']),
+                    'tag': 'grouped|%d|%s' % (ngroups, '+'.join(str(len(t.splitlines())) for t in texts))})
+    return out
+
+
+def check_grouped(spec, res, stats, npts, prop='C14'):
+    """constraints given as a TUPLE of strings (one group of functions per string): the constraints function compiled
+    from the tuple drives the penalty compiled from the same tuple to zero, every line holds there, and the penalty equals
+    that of the same lines given as one string"""
+    import mystic.symbolic as ms
+    key = prop + '/bounded/grouped/'
+    texts, nv = tuple(spec['texts']), spec['nv']
+    single = '\n'.join(texts)
+    rng = random.Random('grouped-pts|%s|%d' % (single, spec['seed']))
+    try:
+        pen = ms.generate_penalty(ms.generate_conditions(texts, nvars=nv))
+        pen1 = ms.generate_penalty(ms.generate_conditions(single, nvars=nv))
+        kw = {}
+        if spec.get('ctype') == 'inner':
+            from mystic.coupler import inner
+            kw['ctype'] = inner
+        cons = ms.generate_constraint(ms.generate_solvers(texts, nvars=nv), **kw)
+    except Exception as e:      # noqa
+        res.violation(key + 'compiles', 'compiling %r raised %r' % (texts, e), dict(spec))
+        return
+    lines = [l.strip() for l in single.splitlines() if l.strip()]
+    for x in [[float(rng.randint(-8, 8)) / 2 for _ in range(nv)] for _ in range(npts)] + [[0.0] * nv]:
+        inp = dict(spec, x=list(x))
+        if not feq(float(pen(x)), float(pen1(x)), 1e-12, 0.0):
+            res.violation(key + 'penalty-equals-that-of-the-same-lines-in-one-string', '%r at %r: %r vs %r' % (texts, x, pen(x), pen1(x)), inp)
+            return
+        y = [float(v) for v in cons(list(x))]
+        env = {'x%d' % i: v for i, v in enumerate(y)}
+        holds = all(eval(l.replace(' = ', ' == '), {}, env) for l in lines)
+        p = float(pen(y))
+        res.case('%s%s|%s' % (key, spec['tag'], 'moved' if y != x else 'kept'), True, sample=inp if y != x else None)
+        if not holds or p != 0.0:
+            res.violation(key + 'constraint-satisfies-condition', '%r: constraint(%r) = %r, lines hold: %s, penalty there %r'
+                          % (texts, x, y, holds, p), inp)
+            return
+
+
 def check_program(spec, res, stats, npts):
     if spec['family'] == 'ne-coupled':
         return check_ne_coupled(spec, res, stats, npts)
+    if spec['family'] == 'grouped':
+        return check_grouped(spec, res, stats, npts)
     if spec['family'] != 'sequence':
         b = compile_program(spec, res, stats)
         return b and eval_program(spec, b, res, stats, npts)
@@ -483,7 +541,8 @@ def run(tier='quick', seed=0):
     seqs = [gen_sequence(c, s, e, d, seed * 100 + r) for r in range(reps) for c, s, (e, d) in itertools.product(
         CMPS, SCHEMES, (('const', False), ('gcall', False), ('none', False), ('none', True)))]
     nec = [sp for r in range(reps * 2) for sp in gen_ne_coupled(seed * 100 + r)]
-    jobs = [(p[i:i + n], npts) for p, n in ((cross, 4), (joins, 3), (seqs, 6), (progs, 12), (nec, 8)) for i in range(0, len(p), n)]
+    grp = [sp for r in range(reps * 2) for sp in gen_grouped(seed * 100 + r)]
+    jobs = [(p[i:i + n], npts) for p, n in ((cross, 4), (joins, 3), (seqs, 6), (progs, 12), (nec, 8), (grp, 4)) for i in range(0, len(p), n)]
     tot = {}
     for part, stats in pmap(_work, jobs):
         res.merge(part)
